@@ -82,9 +82,11 @@ def solve_job(job):
     if r == 'sat':
         return key, 'sat', 'z3-5.1', time.time() - t0, d, attempts
     first = r
+    saturated = (r == 'unknown' and 'incomplete' in (d or '') and time.time() - t0 < 1.5)
     # second opinion / fallback
     t1 = time.time()
-    r2, d2 = _solve_cli(['/usr/bin/cvc5', '--tlimit=%d' % TIMEOUT_MS, '--strings-exp'], text, TIMEOUT_MS / 1000)
+    budget = 4000 if saturated else TIMEOUT_MS
+    r2, d2 = _solve_cli(['/usr/bin/cvc5', '--tlimit=%d' % budget, '--strings-exp'], text, budget / 1000)
     attempts.append(('cvc5-1.0', r2, round(time.time() - t1, 3)))
     if first == 'unsat':
         if r2 == 'sat':
@@ -92,6 +94,9 @@ def solve_job(job):
         return key, 'unsat', 'z3-5.1' + ('+cvc5' if r2 == 'unsat' else ''), time.time() - t0, d, attempts
     if r2 == 'unsat':
         return key, 'unsat', 'cvc5-1.0', time.time() - t0, d2, attempts
+    if saturated:
+        # E-matching saturated without a contradiction within a second: more time does not help
+        return key, 'unknown', 'none', time.time() - t0, f"z3: {d}; cvc5: {r2} {d2}", attempts
     t2 = time.time()
     r3, d3 = _solve_cli(['/usr/bin/z3', '-T:%d' % (TIMEOUT_MS // 1000)], text, TIMEOUT_MS / 1000)
     attempts.append(('z3-4.8', r3, round(time.time() - t2, 3)))
